@@ -46,4 +46,49 @@ def CleanFor (m : UInt8) : Ev → Prop
   | .deliver b => m ∉ b
   | .note msg => m ∉ msg
 
+/-! ## The user's logging instance (logging/logging.go, logging/options.go)
+
+Every message passes `Instance.shouldLog` and the instance's `Formatter`, and is then handed to
+each of the instance's loggers. -/
+
+/-- `Instance.Level` as the filter sees it: one of the three known words, or anything else (the
+field is exported; `WithLevel` refuses other words) -/
+inductive Lvl
+  | debug | info | critical | other
+  deriving DecidableEq, Repr
+
+/-- `Instance.shouldLog(l)`: `inst` is the instance's level, `msg` the message's -/
+def shouldLog (nLoggers : Nat) (inst msg : Lvl) : Bool :=
+  if nLoggers = 0 then false else
+  match inst with
+  | .debug => true
+  | .info => msg == .info || msg == .critical
+  | .critical => msg == .critical
+  | .other => false
+
+/-- what the loggers receive: every message that passes the filter, formatted, once per logger -/
+def emitted (fmt : Lvl → Bytes → Bytes) (nLoggers : Nat) (inst : Lvl) (msgs : List (Lvl × Bytes)) :
+    List Bytes :=
+  (msgs.filter fun p => shouldLog nLoggers inst p.1).flatMap
+    fun p => List.replicate nLoggers (fmt p.1 p.2)
+
+/-- ASCII lower-casing of one byte (`strings.ToLower` on ASCII input) -/
+def lowerByte (b : UInt8) : UInt8 :=
+  if 65 ≤ b.toNat ∧ b.toNat ≤ 90 then UInt8.ofNat (b.toNat + 32) else b
+
+/-- `logging.WithLevel(s)` on an ASCII string: the level it sets, or none (ErrBadOption) -/
+def withLevel (s : Bytes) : Option Lvl :=
+  let l := s.map lowerByte
+  if l = [100, 101, 98, 117, 103] then some .debug
+  else if l = [105, 110, 102, 111] then some .info
+  else if l = [99, 114, 105, 116, 105, 99, 97, 108] then some .critical
+  else none
+
+/-- the `Instance.Level` field read as the filter reads it (exact match, no case folding) -/
+def levelOfField (s : Bytes) : Lvl :=
+  if s = [100, 101, 98, 117, 103] then .debug
+  else if s = [105, 110, 102, 111] then .info
+  else if s = [99, 114, 105, 116, 105, 99, 97, 108] then .critical
+  else .other
+
 end Scrapli.Logs
